@@ -26,7 +26,10 @@ class SuffixTrie(object):
                 if node.exceptions is None:
                     node.exceptions = set()
                 node.exceptions.add(part[1:])
-                break
+
+                # NOTE: an exception rule does not make its parent a suffix,
+                # it only cancels a wildcard for the given label
+                return
 
             # To save up some RAM, we initialize the children dict only
             # when strictly necessary
@@ -69,12 +72,14 @@ class SuffixTrie(object):
         for i in range(l - 1, -1, -1):
             part = parts[i]
 
-            # Cannot go deeper
-            if node.children is None:
+            # Exception: the suffix is the exception rule minus its leftmost label
+            if node.exceptions is not None and part in node.exceptions:
+                suffix_length = current_length
+                match = node
                 break
 
-            # Exception
-            if node.exceptions is not None and part in node.exceptions:
+            # Cannot go deeper
+            if node.children is None:
                 break
 
             child = node.children.get(part)
@@ -95,8 +100,8 @@ class SuffixTrie(object):
                 suffix_length = current_length
                 match = node
 
-        # Checking the node we finished on is a leaf and is one we allow
-        if match is None or not match.leaf:
+        # Checking we found a matching rule
+        if match is None or suffix_length == 0:
             return None
 
         # hostname = suffix ?
